@@ -10,6 +10,10 @@ import Req.C07.Token
 import Req.C07.H1Budget
 import Req.C07.H3Budget
 import Req.Client.DigestAuth
+import Req.C07.H1Conn
+import Req.C07.H3Sections
+import Req.C07.DigestAlg
+import Req.C07.H2Settings
 /-! Driver lanes of C07. -/
 namespace Req.Driver.L.C07
 open Req.Proto
@@ -251,7 +255,59 @@ def laneDigest : List String → String
     | none => "bad-op"
   | _ => "bad-op"
 
+/-! ### round 5: sequences -/
+
+def parseNatList (sep : String) (t : String) : Option (List Nat) :=
+  if t == "-" then some [] else (t.splitOn sep).mapM (·.toNat?)
+
+def parseResp (t : String) : Option Req.C07.H1Conn.Resp :=
+  match t.splitOn ":" with
+  | [i, f, b, c] =>
+    match parseNatList "+" i, f.toNat? with
+    | some il, some fn => some ⟨il, fn, b == "1", c == "1"⟩
+    | _, _ => none
+  | _ => none
+
+/-- `c07h1conn <L> <resp;resp;…>` (resp = `<i1+i2…|->:<final>:<bodiless>:<close>`) → per response
+`ok@conn` / `big@conn/taken` / `many@conn` -/
+def laneH1Conn : List String → String
+  | [l, rs] =>
+    match l.toNat?, (rs.splitOn ";").mapM parseResp with
+    | some L, some resps => ",".intercalate ((Req.C07.H1Conn.connRun L 0 resps).map Req.C07.H1Conn.renderOut)
+    | _, _ => "bad-op"
+  | _ => "bad-op"
+
+/-- `c07h3sections <max> <statuses|-> <hex stream>` → class, block buffers allocated, bytes consumed -/
+def laneH3Sections : List String → String
+  | [m, sts, hex] =>
+    match m.toNat?, parseNatList "," sts, decodeHex hex with
+    | some M, some st, some s =>
+      let r := Req.C07.H3Sections.readResponse M st s
+      Req.C07.H3Sections.render s { r with allocs := r.allocs.filter (· != 0) }
+    | _, _, _ => "bad-op"
+  | _ => "bad-op"
+
+/-- `c07digestuse <hex WWW-Authenticate value>` → `ok <hex digest length> <qop>` / error class / `panic` -/
+def laneDigestUse : List String → String
+  | [hex] =>
+    match decodeHex hex with
+    | some s => Req.C07.DigestAlg.render (Req.C07.DigestAlg.answer Req.C07.DigestAlg.real s)
+    | none => "bad-op"
+  | _ => "bad-op"
+
+/-- `c07h2settings <id:val,…|-> <blockLen>` → what the caller of a request on that connection gets -/
+def laneH2Settings : List String → String
+  | [f, bl] =>
+    match (if f == "-" then some [] else (f.splitOn ",").mapM parsePair), bl.toNat? with
+    | some l, some n => Req.C07.H2Settings.callOutcome l n
+    | _, _ => "bad-op"
+  | _ => "bad-op"
+
 def lanes : List (String × (List String → String)) := [
+  ("c07h1conn", laneH1Conn),
+  ("c07h3sections", laneH3Sections),
+  ("c07digestuse", laneDigestUse),
+  ("c07h2settings", laneH2Settings),
   ("c07digest", laneDigest),
   ("c07altsvc", laneAltSvc),
   ("c07meta", laneMeta),
